@@ -6,7 +6,7 @@ pub(crate) mod clock {
     use std::time::{Duration, Instant};
 
     /// ghost monotonic clock, in milliseconds since an arbitrary origin
-    pub static mut NOW_MS: u64 = 10_000_000;
+    pub static mut NOW_MS: u64 = 100_000_000;
 
     #[repr(C)]
     struct RawInstant {
